@@ -723,10 +723,17 @@ def with_history(rng, cases, variants, fraction=0.25, limit=400):
     exercised.  variants(fn, args, i) -> list of replacement values for argument i (valid and invalid)."""
     out = list(cases)
     picked = [c for c in cases if rng.random() < fraction][:limit]
+    # ... and, whatever the sample holds, several base cases of EVERY function in the run (a memo keyed on part of one
+    # function's arguments is only exercised by neighbours of that function)
+    by_fn = {}
+    for c in cases:
+        by_fn.setdefault(c[0], []).append(c)
+    for fn, cs in by_fn.items():
+        picked += rng.sample(cs, min(len(cs), 6))
     for fn, args in picked:
         seq = [(fn, args)]
         for i in range(len(args)):
-            for v in variants(fn, args, i)[:3]:
+            for v in variants(fn, args, i)[:7]:
                 a2 = tuple(v if j == i else x for j, x in enumerate(args))
                 seq += [(fn, a2), (fn, args)]
         out += seq
